@@ -106,5 +106,11 @@ void register_driver(const Driver &d);
 const Driver *find_driver(const std::string &id);
 struct Reg { explicit Reg(const Driver &d) { register_driver(d); } };
 void advance_clock(long secs);   // virtual clock seen by the library (core/clock.cpp)
+void pin_clock(long t);
+// helper entry points that a driver wants to run in a freshly exec'ed process: nixmon --helper NAME args...
+typedef int (*HelperFn)(int argc, char **argv);
+void register_helper(const std::string &name, HelperFn fn);
+struct RegHelper { RegHelper(const std::string &n, HelperFn f) { register_helper(n, f); } };
+std::string self_exe();
 
 }  // namespace vm
